@@ -2,6 +2,8 @@ import PyodaProofs.C08
 import PyodaProofs.C08Create
 import PyodaProofs.C08Stepped
 import PyodaProofs.C08StepsWF
+import PyodaProofs.C08DateTime
+import PyodaProofs.C08DateTimeWF
 
 #print axioms Pyoda.C08.parseDigits_total
 #print axioms Pyoda.C08.parseFraction_total
@@ -42,3 +44,21 @@ import PyodaProofs.C08StepsWF
 #print axioms Pyoda.C08.compileTime_wf
 #print axioms Pyoda.C08.time_success_valid
 #print axioms Pyoda.C08.offset_success_valid
+#print axioms Pyoda.C08.compileDateTime_total
+#print axioms Pyoda.C08.invariantCulture_dtTextsNoL
+#print axioms Pyoda.C08.dtValue_total
+#print axioms Pyoda.C08.datetime_parse_total
+#print axioms Pyoda.C08.parseLongest_index
+#print axioms Pyoda.C08.parseStep_dt_ok
+#print axioms Pyoda.C08.parseSteps_dt_ok
+#print axioms Pyoda.C08.dateValueT_valid
+#print axioms Pyoda.C08.timeValueT_valid
+#print axioms Pyoda.C08.dtValue_valid
+#print axioms Pyoda.C08.parseCompiled_date_valid
+#print axioms Pyoda.C08.parseCompiled_datetime_valid
+#print axioms Pyoda.C08.compileLoop_inv
+#print axioms Pyoda.C08.compileDate_wf
+#print axioms Pyoda.C08.compileDateTime_wf
+#print axioms Pyoda.C08.invariantCulture_monthHeadsEmpty
+#print axioms Pyoda.C08.date_success_valid
+#print axioms Pyoda.C08.datetime_success_valid
